@@ -366,7 +366,13 @@ def CombineSpec (R : Con → Prop) (RE : Exp → Prop) (E : Env) : Prop :=
     ∃ Us1 s1, childCombine E j rest s = (.ok s.w.fes.length, s1) ∧ Merged R RE E Us Us1 s s1 names s.w.fes.length
 
 omit H F in
-/-- `_solver_for_names(names)` -/
+/-- `Merged` looks at the composite's record and the list of children only: the event counter may have moved before -/
+theorem Merged.of_tick {Us Us1 : List (List Con)} {s s1 : CSt} {names : List Var} {m : Nat} (t : Nat)
+    (hm : Merged R RE E Us Us1 { s with w := { s.w with tick := t } } s1 names m) : Merged R RE E Us Us1 s s1 names m :=
+  ⟨hm.comp, hm.kids, hm.reuse, hm.keysOk, hm.exact, hm.len, hm.frame, hm.lt, hm.sub, hm.sup, hm.sem, hm.old, hm.fresh⟩
+
+omit H F in
+/-- `_solver_for_names(names)`: whatever the order in which `list(solvers)` lists the set of children -/
 theorem solverForNames_spec (hC : CombineSpec R RE E) {U : List Con} {Us : List (List Con)} {s : CSt}
     (h : CInv R RE E U Us s) (names : List Var) :
     ∃ m Us1 s1, solverForNames E names s = (.ok m, s1) ∧ Merged R RE E Us Us1 s s1 names m := by
@@ -375,7 +381,10 @@ theorem solverForNames_spec (hC : CombineSpec R RE E) {U : List Con} {Us : List 
       (match closureLoop s ((s.w.fes.map (fun f : Frontend => f.variables.length)).sum + 1) names names [] with
        | [] => blankChild E
        | [j] => pure j
-       | j :: rest => childCombine E j rest) s := rfl
+       | l => (do
+          match ← orderChildren E l with
+          | [] => blankChild E
+          | j :: rest => childCombine E j rest : CM Nat)) s := rfl
   rw [hrun]
   cases hcl : closureLoop s ((s.w.fes.map (fun f : Frontend => f.variables.length)).sum + 1) names names [] with
   | nil =>
@@ -388,8 +397,29 @@ theorem solverForNames_spec (hC : CombineSpec R RE E) {U : List Con} {Us : List 
       rw [← hmem t, hcl]; simp
     | cons r rest =>
       rw [hcl] at hnd hmem
-      obtain ⟨Us1, s1, hr, hm⟩ := hC U Us s h names j (r :: rest) (by simp) hnd hmem
-      exact ⟨_, Us1, s1, hr, hm⟩
+      -- the set in the order CPython lists it: a permutation
+      have hnd' := nodup_reorderBy (fun (j : Nat) k => k == [j])
+        (E.pick ((j :: r :: rest).map fun j => [j]) ((j :: r :: rest).map fun j => [j]).length s.w.tick) _ hnd
+      have hmem' := mem_reorderBy (fun (j : Nat) k => k == [j])
+        (E.pick ((j :: r :: rest).map fun j => [j]) ((j :: r :: rest).map fun j => [j]).length s.w.tick) (j :: r :: rest)
+      simp only [bind, CM.bind, orderChildren, orderOracle_run]
+      generalize reorderBy (fun (j : Nat) k => k == [j])
+        (E.pick ((j :: r :: rest).map fun j => [j]) ((j :: r :: rest).map fun j => [j]).length s.w.tick) (j :: r :: rest) = l'
+        at hnd' hmem'
+      have hjr : j ≠ r := by
+        intro e; subst e
+        have := (List.nodup_cons.mp hnd).1
+        exact this (by simp)
+      match l', hnd', hmem' with
+      | [], _, hm' => exact absurd ((hm' j).mpr (by simp)) (by simp)
+      | [a], _, hm' =>
+        have h1 : j = a := by simpa using (hm' j).mpr (by simp)
+        have h2 : r = a := by simpa using (hm' r).mpr (by simp)
+        exact absurd (h1.trans h2.symm) hjr
+      | a :: b :: rest', hnd', hm' =>
+        obtain ⟨Us1, s1, hr, hm⟩ := hC U Us _ (h.set_tick (s.w.tick + 1)) names a (b :: rest') (by simp) hnd'
+          (fun t => (hm' t).trans (hmem t))
+        exact ⟨_, Us1, s1, hr, hm.of_tick _⟩
 
 /-- **`_add_dependent_constraints(names, cs)` keeps the invariant** -/
 theorem addDependent_spec (hC : CombineSpec R RE E) {U : List Con} {Us : List (List Con)} {s : CSt}
@@ -520,6 +550,17 @@ theorem CInv.setUnsat {U U' : List Con} {Us : List (List Con)} {s : CSt} (h : CI
     CInv R RE E U' Us { s with c := { s.c with unsat := true } } :=
   ⟨h.kids, h.reuse, h.keysOk, h.exact, h.nodup, h.map, h.cover, fun hu => (by cases hu), fun _ => hun, h.checked⟩
 
+omit H F in
+/-- the list `_split_constraints` returns, in whatever order the set behind it is iterated: the same groups -/
+theorem orderGroups_run (E : Env) (gs : List (List Var × List Nat)) (s : CSt) :
+    ∃ gs' t, orderGroups E gs s = (.ok gs', { s with w := { s.w with tick := t } }) ∧ ∀ g, g ∈ gs' ↔ g ∈ gs := by
+  unfold orderGroups
+  by_cases hl : gs.length < 2
+  · simp only [hl, ↓reduceIte]
+    exact ⟨gs, s.w.tick, rfl, fun _ => Iff.rfl⟩
+  · simp only [hl, ↓reduceIte, orderOracle_run]
+    exact ⟨_, _, rfl, fun g => mem_reorderBy _ _ _ g⟩
+
 /-- **`CompositeFrontend._add` keeps the invariant**: afterwards the children partition `U ++ cs` (constraints without variables
 that the concrete backend cannot decide are out of scope: `hconc`) -/
 theorem compAdd_spec (hC : CombineSpec R RE E) {U : List Con} {Us : List (List Con)} {s : CSt} (h : CInv R RE E U Us s)
@@ -529,7 +570,9 @@ theorem compAdd_spec (hC : CombineSpec R RE E) {U : List Con} {Us : List (List C
   have hvl : (cs.map (·.vars)).length = cs.length := by simp
   generalize hv : cs.map (·.vars) = varss at hvarss hvl
   have hsplit : splitConstraints varss = (groupsOf varss, concreteOf varss) := splitConstraints_eq varss
-  obtain ⟨out, Us1, s1, hr, hinv⟩ := addGroups_spec H F hC cs hcs varss hvarss hvl (groupsOf varss) (fun _ hg => hg) U Us s [] h
+  obtain ⟨gs, t, hog, hgs⟩ := orderGroups_run E (groupsOf varss) s
+  obtain ⟨out, Us1, s1, hr, hinv⟩ := addGroups_spec H F hC cs hcs varss hvarss hvl gs (fun g hg => (hgs g).mp hg) U Us _ []
+    (h.set_tick t)
   -- the constraints without variables
   have hset : ∀ c ∈ (concreteOf varss).map (fun i => cs.getD i default), c ∈ cs ∧ c.vars = [] := by
     intro c hc
@@ -538,15 +581,15 @@ theorem compAdd_spec (hC : CombineSpec R RE E) {U : List Con} {Us : List (List C
     have hlt : i < cs.length := by rw [← hvl]; exact (List.getElem?_eq_some_iff.mp h1).1
     refine ⟨getD_mem cs i hlt, ?_⟩
     rw [← hvarss i hlt]; simp [List.getD, h1]
-  have hgrp : ∀ c ∈ (groupsOf varss).flatMap (fun g => g.2.map fun i => cs.getD i default), c ∈ cs := by
+  have hgrp : ∀ c ∈ gs.flatMap (fun g => g.2.map fun i => cs.getD i default), c ∈ cs := by
     intro c hc
     obtain ⟨g, hg, hcg⟩ := List.mem_flatMap.mp hc
     obtain ⟨i, hi, rfl⟩ := List.mem_map.mp hcg
     have : i ∈ allIdx varss := by
       unfold allIdx
-      exact List.mem_append_left _ (List.mem_flatten.mpr ⟨g.2, List.mem_map.mpr ⟨g, hg, rfl⟩, hi⟩)
+      exact List.mem_append_left _ (List.mem_flatten.mpr ⟨g.2, List.mem_map.mpr ⟨g, (hgs g).mp hg, rfl⟩, hi⟩)
     exact getD_mem cs i (by rw [← hvl]; exact (mem_allIdx varss i).mp this)
-  have hall : ∀ c ∈ cs, c ∈ (groupsOf varss).flatMap (fun g => g.2.map fun i => cs.getD i default) ∨
+  have hall : ∀ c ∈ cs, c ∈ gs.flatMap (fun g => g.2.map fun i => cs.getD i default) ∨
       c ∈ (concreteOf varss).map (fun i => cs.getD i default) := by
     intro c hc
     obtain ⟨i, hlt, rfl⟩ := List.getElem_of_mem hc
@@ -557,11 +600,12 @@ theorem compAdd_spec (hC : CombineSpec R RE E) {U : List Con} {Us : List (List C
     · left
       obtain ⟨l, hl, hil⟩ := List.mem_flatten.mp hx
       obtain ⟨g, hg, rfl⟩ := List.mem_map.mp hl
-      exact List.mem_flatMap.mpr ⟨g, hg, List.mem_map.mpr ⟨i, hil, hgd⟩⟩
+      exact List.mem_flatMap.mpr ⟨g, (hgs g).mpr hg, List.mem_map.mpr ⟨i, hil, hgd⟩⟩
     · right; exact List.mem_map.mpr ⟨i, hx, hgd⟩
   -- the run
   have hrun : compAdd E cs s = (do
-      let childAdded ← addGroups E cs (groupsOf varss) []
+      let groups ← orderGroups E (groupsOf varss)
+      let childAdded ← addGroups E cs groups []
       if (concreteOf varss).isEmpty then ownAdd childAdded
       else
         match concreteScan ((concreteOf varss).map fun i => cs.getD i default) with
@@ -577,7 +621,7 @@ theorem compAdd_spec (hC : CombineSpec R RE E) {U : List Con} {Us : List (List C
     rw [hv, hsplit]
     rfl
   rw [hrun]
-  simp only [bind, CM.bind, hr]
+  simp only [bind, CM.bind, hog, hr]
   by_cases hemp : (concreteOf varss).isEmpty = true
   · simp only [hemp, ↓reduceIte]
     refine ⟨_, Us1, _, rfl, ?_⟩
